@@ -214,6 +214,10 @@ class ExecExpr(ExecCore):
                     st.assume(shape(st, rterm, rt))
                     return [(st, SV(term, Ty.TFunc(ft.qual, recv=SV(rterm, rt))))], []
                 return [(st, SV(term, ft))], []
+            for k in front.cls_obj(ty.cls).__mro__:
+                kq = front.cls_qual(k)
+                if kq in CLASS_DECL and attr in CLASS_DECL[kq].get('methods', {}):
+                    return [(st, SV(VNone, Ty.TFunc(CLASS_DECL[kq]['methods'][attr], recv=base)))], []
             owner, member = front.method_owner(ty.cls, attr)
             if owner is not None:
                 if isinstance(member, property):
